@@ -313,6 +313,17 @@ class Sim:
             self.main = self.spawn(name, main_fn, *args, kind="main", **kwargs)
             while True:
                 alive = [t for t in self.tasks if t.state not in ("done", "killed")]
+                ka = self.faults.get("kill_all_at")
+                if ka is not None and self.steps >= ka and alive:
+                    # the whole process group dies (job killed): nothing runs any more; buffers of
+                    # files that simulated processes still hold open are lost with them
+                    self.log.append(("note", "fault", "KILL-ALL", self.steps))
+                    fired = self.faults.setdefault("_fired", {})
+                    fired["kill_all"] = 1
+                    for t in alive:
+                        self.kill(t)
+                    self.verdict = "killed_all"
+                    break
                 live = [t for t in alive if not t.daemon]
                 if not live:
                     self.verdict = Verdict.COMPLETE
